@@ -20,6 +20,16 @@ CHECKS.append(
          note="Trusted: rustc const-eval/MIR, regex-syntax+regex-automata, Turtle/XSD transcriptions, rio_turtle as the "
               "reader. Not decided: list/inlining/annotation heuristics, rio formatters.",
          technique="static: DFA language inclusion on regex constants + edge-dominance/def-use rules over MIR"))
+CHECKS.append(
+    dict(id="C16", level="other", engine="E1+E3",
+         text="Every cycle of the resolved workspace call graph is an audited table entry whose class bounds depth by "
+              "data nesting / log n / query size / a constant; unknown cycles, new recursive call sites in audited "
+              "cycles and loop-as-recursion patterns are violations. Decides the recursion-structure clause (a necessary "
+              "condition for size-independent stack use), not frame sizes.",
+         note="Trusted: rustc's callee resolution; the audit reasons in rules/tables/recursion.py. Calls through type "
+              "parameters are not linked to impls (monomorphic recursion through them is bounded by type nesting). "
+              "Third-party crates not analysed.",
+         technique="static: SCCs of the MIR call graph + audited table + argument-provenance patterns"))
 NOT_APPLICABLE = [
     dict(property_id="C17", reason="relativise/resolve inverse is an equation between runtime-computed strings "
          "(byte-offset arithmetic); no structural clause that is a genuine necessary condition without freezing the "
@@ -27,7 +37,7 @@ NOT_APPLICABLE = [
 ]
 # properties not yet wired in this commit are listed as not applicable *for now* by gen (see below)
 PENDING = ["C01", "C02", "C03", "C05", "C06", "C07", "C08", "C10", "C11", "C12", "C13", "C14", "C15",
-           "C16", "C18", "C19", "C20"]
+           "C18", "C19", "C20"]
 for p in PENDING:
     if p not in [c["id"] for c in CHECKS]:
         NOT_APPLICABLE.append(dict(property_id=p, reason="check under construction in this commit (planned per "
